@@ -542,8 +542,7 @@ pub fn run(rep: &Reporter) -> Coverage {
     let mut runs = Vec::new();
     let budget = rep.tier.pick(40.0, 1200.0);
     let mut exhaustive = true;
-    for mut plan in plans(rep.tier) {
-        plan.depth -= 1;
+    for plan in plans(rep.tier) {
         let stats = explore(rep, &oracle, &plan.init, &plan.al, plan.depth, budget);
         cov.states += stats.states;
         cov.transitions += stats.transitions;
